@@ -33,6 +33,9 @@ class Harness:
         self.expect = kv.get('expect', 'pass')       # pass | fail (vacuity twin: must FAIL)
         self.cost = float(kv.get('cost', '30'))
         self.solver = kv.get('solver')
+        # native concrete playback only makes sense for harnesses without stubs of repository code and
+        # without partially initialised contexts (Kani does not apply stubs in playback tests)
+        self.playback = kv.get('playback', '0') == '1'
 
 class Module:
     """One harness file == one child module attached to one repo source file."""
